@@ -156,13 +156,22 @@ theorem C16_rp_text_witness :
     let q := sel ++ [from_ "cpu", .tok sp] ++ tk [.w (S "WHERE"), sp, .w (S "host"), sp, .p '=', sp, .l (S "'read_parquet'")]
     prep (flat q) = flat q ∧ rewrite none (flat q) = flat q ∧ rewrite none (flat q) ≠ unmask (specFlat none q) := by decide
 
-/-- header, single "from ": only the reference after that "from " is rewritten (here the inner one). -/
+/-- header, JOIN followed by a newline: exactly one "from ", one FROM reference, no " join " in the text, so the
+single-table fast path is taken and the joined measurement is left unrewritten (still true after /repo 53c9b19,
+which closed the variants with a second FROM). -/
 theorem C16_fastpath_partial_witness :
+    let q := tk [.w (S "SELECT"), sp, .w (S "a"), .p '.', .w (S "rid"), sp] ++ [from_ "cpu", .tok sp, .tok (.w (S "a")), .tok (.s ['\n']),
+      .ref ⟨[], none, S "JOIN", true, ['\n'], none, .bare (S "mem"), false⟩] ++
+      tk [sp, .w (S "b"), sp, .w (S "ON"), sp, .w (S "a"), .p '.', .w (S "host"), .p '=', .w (S "b"), .p '.', .w (S "host")]
+    prep (flat q) = flat q ∧ fastEligible (flat q) = true ∧
+      rewrite (some (S "prod")) (flat q) ≠ unmask (specFlat (some (S "prod")) q) := by decide
+
+/-- fixed by /repo 53c9b19: a second FROM reference (sub-query, UNION) now sends the statement to the regex path -/
+example :
     let q := tk [.w (S "SELECT"), sp, .w (S "rid"), sp] ++ [.ref ⟨[], none, S "FROM", false, ['\n'], none, .bare (S "cpu"), false⟩] ++
       tk [sp, .w (S "WHERE"), sp, .w (S "rid"), sp, .w (S "IN"), sp, .p '(', .w (S "SELECT"), sp, .w (S "rid"), sp] ++
       [from_ "mem", .tok (.p ')')]
-    prep (flat q) = flat q ∧ fastEligible (flat q) = true ∧
-      rewrite (some (S "prod")) (flat q) ≠ unmask (specFlat (some (S "prod")) q) := by decide
+    fastEligible (flat q) = false ∧ rewrite (some (S "prod")) (flat q) = unmask (specFlat (some (S "prod")) q) := by decide
 
 /-- header, `FROM` + blank + CR LF + name: the fast path skips blanks, tabs and LF but not CR, finds no name and
 returns the statement unchanged. -/
@@ -180,12 +189,13 @@ theorem C16_tablefunc_fast_witness :
       rewrite (some (S "prod")) (flat q) ≠ unmask (specFlat (some (S "prod")) q) ∧
       rewrite none (flat q) = unmask (specFlat none q) := by decide
 
-/-- header, `WITH` followed by a newline: "with " is not in the text, the CTE names are not collected. -/
-theorem C16_with_newline_witness :
+/-- fixed by /repo 04fa395 (the header path always extracts the CTE names): `WITH` + newline no longer leaves the
+registry empty; the statement that used to be the witness is now rewritten exactly. -/
+theorem C16_with_newline_fixed :
     let q := tk [.w (S "WITH"), .s ['\n'], .w (S "r"), sp, .w (S "AS"), sp, .p '(', .w (S "SELECT"), sp, .n (S "1"), .p ')', sp] ++
       tk [.w (S "SELECT"), sp, .l (S "'x'"), sp] ++ [from_ "r" true]
-    prep (flat q) = flat q ∧ fastEligible (flat q) = false ∧
-      rewrite (some (S "prod")) (flat q) ≠ unmask (specFlat (some (S "prod")) q) := by decide
+    prep (flat q) = flat q ∧ Carve (some (S "prod")) q = true ∧
+      rewrite (some (S "prod")) (flat q) = unmask (specFlat (some (S "prod")) q) := by decide
 
 /-- `JOIN LATERAL` + newline + `(`: isDotOrCallAt skips blanks and tabs only, LATERAL becomes a table. -/
 theorem C16_lateral_newline_witness :
@@ -344,6 +354,8 @@ theorem C16_facts_tied :
     Arc.Generated.C16.shortCircuitLits = ["read_parquet", "from", "join"] ∧
     Arc.Generated.C16.singleTableLits = ["from ", " join ", " \t\n", "from "] ∧
     Arc.Generated.C16.dotOrCallTrim = " \t" ∧
+    Arc.Generated.C16.singleTableGuards = ["FindAllStringIndex", "extractCTENames"] ∧
+    Arc.Generated.C16.headerCteAlways = true ∧
     Arc.Generated.C16.slowPassOrder = ["patternDBTable:all", "patternJoinDBTable:all",
       "patternSimpleTable:guarded+cteNames+shouldSkipTableConversion+isDotOrCallAt",
       "patternJoinSimpleTable:guarded+cteNames+shouldSkipTableConversion+isDotOrCallAt"] ∧
